@@ -223,7 +223,7 @@ func (t *typeSet) Default() px.Type {
 
 func (t *typeSet) Equals(other interface{}, guard px.Guard) bool {
 	if ot, ok := other.(*typeSet); ok {
-		return t.name == ot.name && t.nameAuthority == ot.nameAuthority && t.pcoreURI == ot.pcoreURI && t.pcoreVersion.Equals(ot.pcoreVersion) && t.version.Equals(ot.version)
+		return t.name == ot.name && t.nameAuthority == ot.nameAuthority && t.pcoreURI == ot.pcoreURI && versionEquals(t.pcoreVersion, ot.pcoreVersion) && versionEquals(t.version, ot.version)
 	}
 	return false
 }
